@@ -31,7 +31,7 @@ BUDGET = {"quick": 1500, "thorough": 40000}
 FUZZ = {"quick": 0, "thorough": 48000}  # executions of the coverage-guided stage (vlib/fuzz.py)
 SHRINK_SECONDS = {"quick": 30, "thorough": 150}
 RULE = (
-    "case = (problem, injection kind, location/size parameters; a rejection during the sweep must repeat when the sweep is repeated). Non-trivial = an injection other than 'none' whose "
+    "case = (problem, injection kind, location/size parameters; for shared energies the directly ill-defined first-order elements must be rejected every time they are asked for). Non-trivial = an injection other than 'none' whose "
     "location is outside block pair (0,1), or sits in a sparse / symbolic value, or in a non-Hermitian problem, or is a "
     "mask/eigenvector/option fault; 'none' cases count when N >= 3 and K >= 3. Distinct = distinct case hash."
 )
@@ -206,6 +206,7 @@ def check_case(case, enforce_all=False):
         if p["hermitian"] or not any(M[j][i]):
             M[j][i] = [M[i][j][0], -M[i][j][1]]
         p["terms"] = terms
+        inj_blocks = (p["assign"][i], p["assign"][j])
         loc_nontrivial = (p["assign"][i], p["assign"][j]) != (0, 1)
     elif kind == "zero_diagonal":
         p["energy"] = [0] * N
@@ -401,14 +402,27 @@ def check_case(case, enforce_all=False):
                 out.fail("rejected-well-posed", f"well-posed problem: {where} raised {type(exc).__name__}: {str(exc)[:200]}")
             out.labels.append("rejected-at-evaluation")
             out.nontrivial = bool(must_reject and loc_nontrivial)
-            if must_reject:
-                # a rejection is not a one-off: asking again (same computation, same order of requests) must not turn
-                # the rejected element into a number
-                status2, payload2 = _sweep(H_tilde, U, U_inv, nb, p["n_params"], p["K"])
-                if status2 == "returned" or payload2[2] > pos:
-                    out.fail("accepted-after-rejection", f"{kind}: {where} was rejected ({type(exc).__name__}) but the same request returned a value when repeated")
-                elif not isinstance(payload2[0], ALLOWED):
-                    out.fail("wrong-exception-type", f"{kind}: repeated request {payload2[1]} raised {type(payload2[0]).__name__}: {str(payload2[0])[:200]}")
+            if must_reject and kind == "shared_energy":
+                # A rejection is not a one-off.  At higher orders a repeated request may legitimately succeed (once a
+                # vanishing factor of a product is cached, its ill-defined partner is not needed any more - observed on the
+                # unchanged library), but the first-order elements between the two blocks that share the level ARE the
+                # ill-defined Sylvester solution (their right-hand side was made non-zero above): asking for them must
+                # fail every time.
+                bi, bj = inj_blocks
+                e0 = tuple(int(q == 0) for q in range(p["n_params"]))
+                for _ in range(3):
+                    for a_, b_ in ((bi, bj), (bj, bi)):
+                        try:
+                            with warnings.catch_warnings():
+                                warnings.simplefilter("ignore")
+                                U[(a_, b_) + e0]
+                        except ALLOWED:
+                            continue
+                        except Exception as exc2:  # noqa: BLE001
+                            out.fail("wrong-exception-type", f"{kind}: repeated request U[{a_},{b_},{list(e0)}] raised {type(exc2).__name__}: {str(exc2)[:200]}")
+                            return out
+                        out.fail("accepted-after-rejection", f"{kind}: U[{a_},{b_},{list(e0)}] couples two blocks that share an unperturbed energy; it was rejected first and answered with a value when asked again")
+                        return out
         else:
             out.fail("wrong-exception-type", f"{kind}: {where} raised {type(exc).__name__}: {str(exc)[:200]}")
         return out
